@@ -5,6 +5,7 @@ import impl, l0, l1, gens
 from props import c01
 
 THMS = ["C14_accepted_is_balanced", "C14_literal_actions_total_on_clean", "C14_literal_crash_refuted"]
+THMS_E = ["C14_engine_total", "C14_engine_matches_inside_input"]
 
 
 class Timeout(Exception):
@@ -54,12 +55,22 @@ def tokens(sql):
     return [m.group(0) for m in TOK.finditer(sql)]
 
 
+def glues_comment(ts, i):
+    """does deleting token i glue its neighbours into a comment marker?"""
+    a = ts[i - 1] if i > 0 else ""
+    b = ts[i + 1] if i + 1 < len(ts) else ""
+    j = a[-1:] + b[:1]
+    return j in ("--", "/*", "*/") or b[:1] == "#"
+
+
 def ill_formed_variants(sql, rnd):
     """deletions / truncations that make an accepted statement certainly ill-formed by construction"""
     ts = tokens(sql)
     out = []
     idx = [i for i, t in enumerate(ts) if t in "()"]
     for i in idx:
+        if glues_comment(ts, i):
+            continue            # "-(-5)" without its parenthesis is "--5)": a comment, not an unbalanced expression
         out.append(("delete parenthesis", "".join(ts[:i] + ts[i + 1:])))
     for i, t in enumerate(ts):
         if len(t) >= 2 and t[0] in "'\"`" and t[-1] == t[0]:
@@ -82,7 +93,12 @@ def ill_formed_variants(sql, rnd):
     FOLLOW = {"and", "or", "from", "where", "group", "order", "having", "limit", "union", "then", "else", "end", "when", "on"}
     OPS = {"=", "<", ">", "+", "-", "*", "/", "%", "||", "<>", "!=", "<=", ">=", "and", "or", "like", "between", "in"}
     sig = [i for i, t in enumerate(ts) if not t.isspace()]
-    for a_, b_, c_ in zip(sig, sig[1:], sig[2:]):
+    if not re.match(r"\s*\(?\s*(select|with|insert|update|delete)\b", sql, re.I):
+        sig = []                # COPY INTO @stage/path/ FROM ... and the like are not expressions
+    for n_, (a_, b_, c_) in enumerate(zip(sig, sig[1:], sig[2:])):
+        nxt = ts[sig[n_ + 3]] if n_ + 3 < len(sig) else ""
+        if nxt == "(" and ts[c_].lower() not in ("then", "else", "end", "when"):
+            continue            # a reserved word followed by "(" is read as a function call by design (and(a, b), left(a, 1))
         if ts[a_].lower() in OPS and re.match(r"^(\w+|'[^']*')$", ts[b_]) and ts[b_].lower() not in RESERVED_WORDS and ts[c_].lower() in FOLLOW:
             if ts[a_].lower() in ("and", "or") and ts[c_].lower() in ("and", "or"):
                 continue
@@ -188,7 +204,8 @@ def run(ctx):
         if not idx or call(impl.ENTRY[entry], sql)[0] != "ok":
             continue
         for i in (idx if ctx.thorough else idx[:6]):
-            judge(entry, "".join(ts[:i] + ts[i + 1:]), True, "delete parenthesis")
+            if not glues_comment(ts, i):
+                judge(entry, "".join(ts[:i] + ts[i + 1:]), True, "delete parenthesis")
         if nbad > 15:
             break
     for entry, sql in base:
@@ -265,7 +282,60 @@ def run(ctx):
                 ctx.obligation("correspondence: model reader/reducer accepts and rejects exactly like the implementation on %d balanced / unbalanced / dangling token strings" % len(cases), not res["parse"])
                 for i in res["parse"][:5]:
                     ctx.violation("input", dict(sql="select " + meta[i], broken="correspondence model reader vs implementation on malformed expressions"), no_input=True)
+    engine_termination(ctx, rnd, base)
     ctx.sample(dict(example_mutations=[v for _, v in ill_formed_variants("select f(a, 'x') from t where b in (1, 2)", rnd)[:6]]))
+
+
+CERT_HEADER = ("From Coq Require Import List NArith Bool.\nFrom MoSql Require Import Model.Peg Proofs.PegCert Generated.Grammar.\nImport ListNotations.\nLocal Open Scope N_scope.\n")
+
+
+def engine_termination(ctx, rnd, base):
+    """C14_engine_total on the live grammar: Coq re-checks the certificate of every generated table; the theorem's premises about the
+    oracles are evaluated on every query that the twin of the engine model puts to the real terminals / whitespace skippers for sampled inputs"""
+    import peg, extract_grammar
+    ctx.prove("Props.C14e", THMS_E)
+    try:
+        reg, tabs = peg.all_tables()
+    except Exception as e:
+        ctx.obligation("grammar translator", False, repr(e))
+        ctx.violation("obligation", dict(what="the grammar translator failed closed", error=repr(e)), no_input=True)
+        return
+    keys = list(tabs) if ctx.thorough else [("common_parser", None), ("common_parser", "*"), ("mysql_parser", None), ("sqlserver_parser", None), ("bigquery_parser", None)]
+    names = [extract_grammar.tname(k)[2:] for k in keys]
+    checks = ["cert_ok NL_%s NLR_%s RK_%s NLT T_%s && (root_%s <? N.of_nat (List.length T_%s))" % (n, n, n, n, n, n) for n in names]
+    bad, log = l0.run_checks(ctx, "c14_cert", CERT_HEADER, checks, shard=1)
+    if bad is None:
+        ctx.obligation("certificate evaluated", False, log[-1500:])
+        ctx.violation("obligation", dict(what="the termination certificate could not be evaluated by coqc", log=log[-1500:]), no_input=True)
+        return
+    ctx.obligation("termination certificate: cert_ok NL NLR RK NLT T = true and root in range for %s (markings closed, every same-position call goes down in rank, no repetition over a nullable child, ids in range; re-checked by Coq on the generated tables)" % ", ".join(names), not bad)
+    cert = {}
+    for k in keys:
+        try:
+            NL, NLR, RK = tabs[k].certificate()
+            cert[extract_grammar.tname(k)[2:]] = dict(nodes=len(NL), nullable=sum(NL), nullable_raw=sum(NLR), max_rank=max(RK), fuel_for_length_300=(300 + 1) * (max(RK) + 2) + RK[tabs[k].root] + 2)
+        except ValueError as e:
+            cert[extract_grammar.tname(k)[2:]] = dict(error=str(e))
+    ctx.extra["termination_certificate"] = cert
+    if bad:
+        ctx.violation("obligation", dict(what="the grammar no longer has a termination certificate: a node can call itself again at the same position (left recursion), or the marking is not closed",
+                                         tables=[names[b] for b in bad], detail=cert), no_input=True)
+    # the premises about the oracles, on the queries of real runs (accepted and rejected inputs)
+    T = tabs[("common_parser", None)]
+    nq, worst = 0, []
+    texts = [s for _, s in base[:ctx.n(40, 400)]]
+    texts += [s[: max(1, len(s) // 2)] for s in texts[:10]] + ["select", "select (", "select 'a", "", "  ", "select a from t where"]
+    for sql in texts:
+        if len(sql) > 400:
+            continue
+        m = peg.Model(T, sql)
+        m.parse_all()
+        nq += len(m.log)
+        worst += [(sql, b) for b in m.premise_bad[:2]]
+    ctx.traces += len(texts)
+    ctx.obligation("premises of C14_engine_total (oracle_ok) on the %d queries that %d runs of the engine twin put to the real terminals and whitespace skippers" % (nq, len(texts)), not worst, str(worst[:2]))
+    for sql, b in worst[:3]:
+        ctx.violation("input", dict(sql=sql, broken="oracle premise of C14_engine_total: " + str(b)), no_input=True)
 
 
 def replay(ctx, rep):
